@@ -793,9 +793,11 @@ func (e *FnExec) convert(st *State, x *ssa.Convert) {
 		}
 		e.set(x, MkSlice(arr, IntLit(0), n, n))
 	case fs == "Slice" && ts == StrSort:
-		r := Fresh("str", StrSort)
+		// a function of the slice header and the current byte memory
+		sl := from.Underlying().(*types.Slice)
+		cl, so := memClass(sl.Elem())
+		r := UF("bytes2str", StrSort, v, e.getMem(st, cl, so))
 		e.addFact(st, Eq(strLen(r), SLen(v)))
-		e.note("string([]byte) conversion: only the length is modelled")
 		e.set(x, r)
 	case fs == "Int" && ts == StrSort:
 		r := UF("runestr", StrSort, v)
